@@ -74,6 +74,9 @@ MANAGERS = [
     _pm(("IdentityElimination", "RemoveUnusedNodes"), 3, True),
     _pm(("NameFix",), 1, False),
     _pm(("CSE", "RemoveUnusedNodes", "RemoveUnusedFunctions"), 2, True),
+    # a FUNCTIONAL composition (its first member returns a copy) with early stop: at the fixpoint the very first step
+    # reports no modification, and the result must still be another model object
+    _pm(("CloneFunctional", "RemoveUnusedNodes"), 2, True),
 ]
 
 
